@@ -1410,7 +1410,10 @@ def tevalx(e, env, P, fn):
         return env[k_]
     t = e[0]
     if t in ("deref", "idx"):
-        b_ = tevalx(e[1], env, P, fn)
+        try:
+            b_ = tevalx(e[1], env, P, fn)
+        except EvalError:
+            b_ = None       # e.g. a constant global table: evalx handles it
         if isinstance(b_, PStr):
             i_ = tevalx(e[2], env, P, fn) if t == "idx" else 0
             v_ = b_.at(i_)
